@@ -100,6 +100,9 @@ def _chunk(args):
 ALPHA = 'abcdefghijklmnopqrstuvwxyzABCDEFGHIJKLMNOPQRSTUVWXYZ0123456789'
 
 
+BLANKPX = '\0'
+
+
 def _split_chunk(cases):
     """the real process_lines of a transformer-type engine with max_line_width configured: every over-long line is cut into
     overlapping windows, recognised in parts and stitched by merge_transcriptions_and_logits.  The stub network reads the text
@@ -135,9 +138,46 @@ def _split_chunk(cases):
                 logits.append(lg)
             return texts, logits
 
+    from pero_ocr.ocr_engine import transformer_ocr_engine as te
+
+    class Net:
+        """stands for the trained transformer: the encoder hands the painted symbols on, the decoder emits them one per step and
+        the sentence boundary after the last one (greedy decoding, batching, stopping, trimming are the real engine's)"""
+        def __init__(self, nsym):
+            self.nsym = nsym
+            self.trans_decoder = self
+
+        def encode(self, lines):
+            return torch.round(lines[:, 0, 0, :] * 255.0).permute(1, 0).unsqueeze(2)          # (width, batch, 1)
+
+        def dec_embeder(self, tokens):
+            return tokens.float().unsqueeze(1)
+
+        def pos_encoder(self, x):
+            return x
+
+        def infer(self, label_embs, encoded, is_cached=False):
+            step = label_embs.shape[0] - 1
+            lg = torch.full((encoded.shape[1], self.nsym), -5.0)
+            for b in range(encoded.shape[1]):
+                syms = [int(v) - 1 for v in encoded[:, b, 0] if v > 0]
+                lg[b, syms[step] if step < len(syms) else self.nsym - 2] = 5.0
+            return lg
+
+        def dec_out_proj(self, x):
+            return x
+
+    class RealTransformer(te.TransformerEngineLineOCR):
+        """the real run_ocr / transcribe_batch / postprocess_decoded / decode of the transformer engine around the stub network"""
+        def __init__(self, batch_size):
+            Stub.__init__(self, batch_size)
+            self.characters = list(ALPHA) + [u'\u200B', '']
+            self.sentence_boundary_ind, self.ignore_ind = len(self.characters) - 2, len(self.characters) - 1
+            self.net = Net(len(self.characters))
+
     def paint(text):
         img = np.zeros((4, len(text), 3), dtype=np.uint8)
-        img[:, :, :] = np.array([ALPHA.index(c) + 1 for c in text], dtype=np.uint8)[None, :, None]
+        img[:, :, :] = np.array([0 if c == BLANKPX else ALPHA.index(c) + 1 for c in text], dtype=np.uint8)[None, :, None]
         return img
 
     def windows(text):
@@ -149,17 +189,24 @@ def _split_chunk(cases):
             s0 += MAXW - ov
             e0 += MAXW - ov
         parts.append(text[s0:e0])
-        return parts
-    for lengths, batch_size, offset in cases:
+        return [p_.replace(BLANKPX, '') for p_ in parts]
+    for case in cases:
+        lengths, batch_size, offset = case[:3]
+        margin = case[3] if len(case) > 3 else 0
         out['evaluations'] += 1
         texts = [''.join(ALPHA[(offset + 17 * k + j) % len(ALPHA)] for j in range(n)) for k, n in enumerate(lengths)]
+        # an indented first line: `margin` blank pixel columns in front of its text (its first window then holds fewer characters
+        # than the later ones, although it is as wide)
+        texts[0] = BLANKPX * margin + texts[0]
         if sum(1 for t in texts if len(t) > MAXW) >= 2:
             out['nontrivial'] += 1
         bad = []
-        try:
-            got, logits, _ = Stub(batch_size).process_lines([paint(t) for t in texts], sparse_logits=False)
+        for engine in ((Stub, RealTransformer) if out['evaluations'] % 4 == 1 or margin else (Stub,)):
+          try:
+            got, logits, _ = engine(batch_size).process_lines([paint(t) for t in texts], sparse_logits=False)
             for k, (t, g) in enumerate(zip(texts, got)):
                 parts = windows(t)
+                t = t.replace(BLANKPX, '')
                 ov = MAXW // 4
                 if g is None or not g.startswith(parts[0][:len(parts[0]) - (ov + 1) // 2 if len(parts) > 1 else len(parts[0])]):
                     bad.append('line %d: stitched text %r does not begin with its own first part %r (less half the overlap)' % (k, g, parts[0]))
@@ -168,11 +215,11 @@ def _split_chunk(cases):
                 elif len(set(t)) == len(t) and g != t:
                     bad.append('line %d: windows of a text without repeated symbols overlap unambiguously, yet %r != %r' % (k, g, t))
                 elif logits[k].shape[0] != len(g):
-                    bad.append('line %d: %d logit rows for %d characters' % (k, logits[k].shape[0], len(g)))
-        except Exception as e:
-            bad.append('raised %r' % (e,))
+                    bad.append('line %d: %d logit rows for %d characters (%s)' % (k, logits[k].shape[0], len(g), engine.__name__))
+          except Exception as e:
+            bad.append('raised %r (%s)' % (e, engine.__name__))
         for b in bad:
-            out['failures'].append({'input': {'line_lengths': list(lengths), 'batch_size': batch_size, 'offset': offset}, 'observed': b})
+            out['failures'].append({'input': {'line_lengths': list(lengths), 'batch_size': batch_size, 'offset': offset, 'margin': margin}, 'observed': b})
         if len(out['samples']) < 2 and len(lengths) == 2:
             out['samples'].append({'line_lengths': list(lengths), 'batch_size': batch_size})
     return out
@@ -215,6 +262,7 @@ def run(ctx):
     cases = [((a,), bs, 0) for a in widths for bs in (1, 2)] + \
             [((a, b), bs, off) for a in widths for b in widths for bs in (1, 2, 8) for off in ((0, 5) if thorough else (0,))] + \
             [((a, b, c), bs, 3) for a in widths[2:] for b in widths[2:] for c in widths[::3] for bs in ((2, 8) if thorough else (8,))]
+    cases += [((a, b), bs, 1, m) for a in (20, 30) for b in (5, 24) for bs in (2, 8) for m in (10, 13, 20)]      # indented first line
     res = bounded.pmap(_split_chunk, bounded.shard(bounded.order(cases, ctx.seed), 16))
     fails = []
     if res['failures']:
@@ -238,6 +286,13 @@ def replay(entry):
     import numpy as np
     from pero_ocr.ocr_engine import line_ocr_engine as le
     inp = entry.get('input') or {}
+    if 'line_lengths' in inp:
+        case = (tuple(inp['line_lengths']), inp['batch_size'], inp['offset']) + ((inp['margin'],) if inp.get('margin') else ())
+        r = _split_chunk([case])
+        for f in r['failures']:
+            print('REPLAY-FAIL', f['observed'])
+        print('replay: %d problem(s) on %r' % (len(r['failures']), inp))
+        return 1 if r['failures'] else 0
     if 'parts' not in inp:
         print('replay: obligation %s has no concrete input; solver output:\n%s' % (entry.get('obligation'), entry.get('solver_output')))
         return 1
